@@ -4,7 +4,10 @@ package httpp
 
 import (
 	"net"
+	"net/http"
 	"sort"
+
+	"github.com/bluenviron/mediamtx/internal/logger"
 )
 
 // VerifC07Addr returns the address of the server's listener.
@@ -20,4 +23,19 @@ func VerifC07HeadersToRedact() []string {
 	}
 	sort.Strings(out)
 	return out
+}
+
+// VerifC07DumpRequest calls the request dumper of the logging handler.
+func VerifC07DumpRequest(req *http.Request) []byte {
+	return dumpRequest(req)
+}
+
+// VerifC07HandlerLogger returns the logging handler (the one Server.Initialize installs) around h.
+func VerifC07HandlerLogger(h http.Handler, log logger.Writer) http.Handler {
+	return &handlerLogger{h: h, log: log}
+}
+
+// VerifC07MaxRequestBodySizeToLog returns the number of request body bytes the logger peeks at.
+func VerifC07MaxRequestBodySizeToLog() int {
+	return maxRequestBodySizeToLog
 }
